@@ -55,6 +55,18 @@ CHECKS = {
         "design_ref": "DESIGN.md §4 C04",
         "note": "The nil literal is excluded by construction (known finding C04-nil-prints-empty, pinned by the repo's own tests). Textual equality with the original source is not asserted.",
     },
+    "C12": {
+        "technique": "model-based exhaustive testing: value lattice x operators x contexts and and/or/not trees vs reference model",
+        "text": "Every pair from a 33-value lattice x 8 operators x 5 condition contexts (variables and literals) and every and/or sequence of up to 5 operands with one optional (negated) group is evaluated by the engine and by a reference model written from the documentation; results must agree wherever the documentation decides (DONT_CARE elsewhere). Exhaustive within the lattice in the thorough tier.",
+        "design_ref": "DESIGN.md §4 C12",
+        "note": "Trusts vf/ref/logic.py. Values outside the lattice (custom drops, NaN) are not covered; documented ambiguities are listed as DONT_CARE in the evidence assumptions.",
+    },
+    "C13": {
+        "technique": "model-based exhaustive testing: collections x limit x offset x reversed x cols vs reference loop model",
+        "text": "All collections of length 0..8 (0..4 quick) of every kind x limit x offset (absent, -3..len+3, 1e20) x reversed, tablerow with every cols value, plus random loop sequences sharing offset:continue, break/continue and nested parentloop; each body prints item and every helper and the complete output must equal the reference model's (from/to slicing of the reference implementation, helpers from the position in the kept segment, documented tablerow row/column structure).",
+        "design_ref": "DESIGN.md §4 C13",
+        "note": "Trusts vf/ref/loops.py. continue after a negative offset and cols <= 0 are not asserted.",
+    },
     "C24": {
         "technique": "model-based testing: exhaustive op histories + owned schedules vs list-LRU reference model; thread stress",
         "text": "Every op history up to length 4 (quick) / 5 (thorough) over 20 ops, capacities 1-4, both cache classes, is compared step by step with an independent list model, so within that bound the sequential clause is decided completely; longer random histories sample beyond it. 'While being listed' is decided deterministically by owned schedules (listing begun, other ops interleaved, listing drained); real threads add a one-sided stress.",
